@@ -1,7 +1,7 @@
 (** C14 — B-tree: the overlap clause is refuted on the faithful model (a get
     suspended on a node that a concurrent insert splits), known finding
     C14-btree-get-overlaps-split.  The sequential refinement of the B-tree is
-    NOT proved here (model tied by correspondence only). *)
+    proved in C14/{BtRep,BtIns,BtOps}.v. *)
 From HS Require Import Base.Prelude C14.Model C14.BtModel.
 Local Open Scope Z_scope.
 
